@@ -49,7 +49,7 @@ PROPS["C10"] = {
     "trusted_base": ["net/http Cookie.String() serialisation is modelled (Model/Cookies.v) and compared byte for byte on every case",
                      "net/http/cookiejar as the browser; Model/Jar.v is compared with it at the end of every history (names and values)",
                      "miniredis as the Redis server for the real-client histories"],
-    "level_text": "c10_ticket_load_after_save / c10_ticket_nothing_after_clear (server-side store: from any jar satisfying the invariant and any store contents, a save followed by a request loads exactly what was saved under the ticket the cookie names, and after a clear neither the cookie nor the entry is left); c10_history (any sequence of saves of any sizes and clears, each computed from and applied to the browser jar: after a "
+    "level_text": "c10_ticket_history (server-side store: after ANY history of saves and clears, from any jar satisfying the family invariant and any store contents, a further save loads exactly what was saved and a further clear leaves nothing), c10_ticket_load_after_save / c10_ticket_nothing_after_clear (its one-step forms: from any jar satisfying the invariant and any store contents, a save followed by a request loads exactly what was saved under the ticket the cookie names, and after a clear neither the cookie nor the entry is left); c10_history (any sequence of saves of any sizes and clears, each computed from and applied to the browser jar: after a "
                   "save the next request loads exactly that value and timestamp, after a clear no cookie of the family is left and nothing "
                   "loads, cookies outside the family are untouched), c10_parts (parts concatenate to the signed value, each <= "
                   "maxCookieLength <= 4096, numbered names), c10_split_progress, c10_load_after_save, c10_clear_complete, "
@@ -282,7 +282,7 @@ PROPS["C13"] = {
     "assumptions": ["corrupted / truncated values are rejected by AES-GCM authentication or msgpack decoding (modelled: every fault on a "
                     "read makes the load fail); lock semantics of the in-memory client, not redislock"],
     "trusted_base": ["the fault-injecting store client in the driver"],
-    "level_text": "c13_outage (every store operation of a request failing: nothing reaches the upstream, no session cookie is set, login and sign-out answer with the error page, readiness fails); for EVERY fault plan (a function from operation index to fault kind): c13_auth (upstream only if both reads were unfaulted "
+    "level_text": "c13_store_entries_are_authenticated (the cipher sealing store entries, regenerated from ticket.makeCipher on every run, is AES-GCM: the premise 'a corrupted entry fails to unseal' of the fault model); c13_outage (every store operation of a request failing: nothing reaches the upstream, no session cookie is set, login and sign-out answer with the error page, readiness fails); for EVERY fault plan (a function from operation index to fault kind): c13_auth (upstream only if both reads were unfaulted "
                   "and the lock obtained without error), c13_faulted_read_unauth / _lock_ / _reload_, c13_cookie_callback and "
                   "c13_cookie_refresh (a session cookie only after a successful write), c13_signout, c13_ready, and the exact "
                   "characterisation of the strict clause c13_strict_characterisation with c13_strict_refuted_save (finding F8) are proved on "
@@ -409,7 +409,7 @@ PROPS["C19"] = {
     "level_text": "c19_sites_pinned (the inventory of slice / constant-index / unchecked-assertion / panic / MustCompile sites regenerated from the "
                   "request-path packages, every provider implementation, pkg/requests and pkg/logger equals the reviewed list) and c19_no_unguarded_site, plus guard theorems for every input over Go's "
                   "partial operations with the guard operator and constant regenerated from the source: c19_allowed_email_domains, "
-                  "c19_decode_state, c19_validate_parts, c19_split_auth_header, c19_basic_credentials, c19_parse_jwt, c19_state_substring, "
+                  "c19_decode_state, c19_validate_parts, c19_split_auth_header, c19_basic_credentials, c19_parse_jwt, c19_google_id_token, c19_logingov_keys, c19_azure_other_mails (the provider decoders repaired by fix: commits: a revert removes the guard the translator looks for), c19_state_substring, "
                   "c19_cfb_decrypt, c19_gcm_decrypt; request fuzzing over 8 configurations, a logging-format sweep and the provider response sweep on every run search for a concrete crashing input.",
     "level_note": "_partial: there is no single serve-function model from which absence of panics follows; the theorems cover the listed guarded "
                   "sites, the rest of the inventory is covered by its reviewed classification and the fuzzing.",
